@@ -34,9 +34,12 @@ CountIn(segs, id) ==
             ELSE F[j - 1] + segs[j].rep * Cardinality({q \in 1..Len(segs[j].pat) : segs[j].pat[q] = id})
     IN  F[Len(segs)]
 
-\* an upper bound of 64 * n * H0 = 64 * (n log2 n - sum_c cnt_c log2 cnt_c)
-NH0Hi64(n, cnts) ==
-    n * Log2Hi64(n) - FX!FoldSet(LAMBDA id, acc : acc + cnts[id] * Log2Lo64(cnts[id]), 0, DOMAIN cnts)
+\* an upper bound of n * H0 in bits: sum_c cnt_c * (log2 n - log2 cnt_c), each term rounded up;
+\* cnt * d / 64 is split so that no intermediate product exceeds 32 bits for n < 10^8
+TermBits(cnt, d) == (cnt \div 64) * d + (((cnt % 64) * d) + 63) \div 64
+NH0HiBits(n, cnts) ==
+    LET hn == Log2Hi64(n)
+    IN  FX!FoldSet(LAMBDA id, acc : acc + TermBits(cnts[id], hn - Log2Lo64(cnts[id])), 0, DOMAIN cnts)
 
 ---------------------------------------------------------------------------
 (* level counts of the plain trees *)
